@@ -6,7 +6,7 @@ import re
 from ..facts import mname, term_callee
 from ..effects import (dispatch_table, arm_blocks, enumerate_chains, fn_effects, resolve_param_item, Effect,
                        collect_effects, CONFIG_CLASS_MSGS, CONFIG_CLASS_CALLS, MSG_EFFECT)
-from ..guards import (BoolVarGuard, EqGuard, HelperGuard, AnyGuard, is_sender, is_self_addr, is_loaded, is_query_field,
+from ..guards import (AllGuard, BoolVarGuard, EqGuard, HelperGuard, AnyGuard, is_sender, is_self_addr, is_loaded, is_query_field,
                       site_guarded, ok_return_blocks, origins_at, resolve, root_param_is)
 from ..mir import Origin
 
@@ -26,6 +26,9 @@ child UpdateConfig messages, hook/admin management). Guard helpers are checked i
 non-error return must be dominated by the comparison. New variants and new effects are picked up
 automatically; a missing entry point, storage constant or an instance count below the pinned floor fails closed.
 This decides who may reach which effect on every path; it does not execute the contracts.
+owner-init: the owner stored by instantiate is InstantiateMsg.owner when the message struct declares such a field (field
+list taken from the type, emitted by the driver) and info.sender otherwise. NextLoan additionally requires the
+factory-registered vault (the looked-up value alone, no default taken from the request) to equal source_vault.
 """
 ASSUMPTIONS = [
     "cw_controllers::{Admin::assert_admin, Admin::execute_update_admin, Hooks::execute_add_hook, Hooks::execute_remove_hook} "
@@ -87,10 +90,13 @@ def required_guards(model):
         g[(c, "UpdateConfig")] = owner_guard(model, c)
     g[("vault", "Callback")] = self_guard(model)
     g[("vault_router", "CompleteLoan")] = self_guard(model)
-    g[("vault_router", "NextLoan")] = EqGuard(
-        "sender==source_vault", is_sender(model),
-        # the request's source_vault field (resolved up to the entry point's message parameter)
-        lambda os_: bool(os_) and all(o.kind == "param" and tuple(o.proj) == ("#NextLoan", "source_vault") for o in os_))
+    # the request's source_vault field (resolved up to the entry point's message parameter)
+    src_vault = lambda os_: bool(os_) and all(o.kind == "param" and tuple(o.proj) == ("#NextLoan", "source_vault") for o in os_)
+    g[("vault_router", "NextLoan")] = AllGuard(
+        EqGuard("sender==source_vault", is_sender(model), src_vault),
+        # ... and that address is the vault the factory has registered (the looked-up value and nothing else:
+        # a default taken from the request when the lookup finds nothing is not a registration)
+        EqGuard("factory.Vault(asset)==source_vault", is_query_field(r"QuerierWrapper::query_wasm_smart$", ()), src_vault))
     router_admin = HelperGuard("assert_admin(sender)", r"^terraswap_router::helpers::assert_admin$", _router_admin_arg_check)
     g[("terraswap_router", "AddSwapRoutes")] = router_admin
     g[("terraswap_router", "RemoveSwapRoutes")] = router_admin
@@ -228,6 +234,7 @@ def run(ctx):
     check_token(ctx, model)
     check_hook_authorisation(ctx, model)
     check_owner_transfer(ctx, model)
+    check_owner_init(ctx, model)
 
 
 def closure_update_guarded(model, chain, e, spec):
@@ -337,6 +344,37 @@ def check_hook_authorisation(ctx, model):
         bad = [it for ch, e, it in effects if not site_guarded(model, ch, e.fn, e.block, spec)[0]]
         ctx.ob("C16-hook", "vault|Cw20HookMsg::Withdraw|token-authorised", bool(effects) and not bad,
                "%d effects; not dominated by '%s': %s" % (len(effects), spec.name, sorted(set(bad))), v.where())
+
+
+def check_owner_init(ctx, model):
+    """The configured owner is the one the instantiation names: if the InstantiateMsg struct has an `owner` field the
+    stored CONFIG.owner comes from it (validated), otherwise it is the instantiating sender -- and nothing else."""
+    from ..dataflow import field_sources
+    from .C18 import saves_of
+    n = 0
+    for crate in ["terraswap_pair", "stableswap_3pool", "vault", "vault_router", "fee_collector", "fee_distributor", "whale_lair",
+                  "frontend_helper", "terraswap_factory", "vault_factory", "incentive_factory"]:
+        p = "%s::contract::instantiate" % crate
+        v = ctx.view(p, "C16-owner-init")
+        if v is None:
+            continue
+        fields = v.fn["body"].get("argfields")
+        if fields is None or "4" not in fields:
+            ctx.missing("C16-owner-init", "field list of %s's InstantiateMsg" % crate)
+            continue
+        has_owner = "owner" in fields["4"]
+        for sb, t in saves_of(v, "%s::state::CONFIG" % crate):
+            for s_ in [s for s in field_sources(v, t["args"][2], ("owner",), v.at_term(sb)) if s.kind in ("assign", "partial", "agg")]:
+                n += 1
+                os_ = v.origins_of_operand(s_.operand, at=(s_.block, s_.idx)) if s_.operand else set()
+                if has_owner:
+                    ok = bool(os_) and all(o.kind == "param" and o.a == 4 and tuple(o.proj) == ("owner",) for o in os_)
+                    want = "InstantiateMsg.owner"
+                else:
+                    ok = bool(os_) and all(o.kind == "param" and o.a == 3 and tuple(o.proj) == ("sender",) for o in os_)
+                    want = "info.sender (the message has no owner field)"
+                ctx.ob("C16-owner-init", "%s|owner" % p, ok, "CONFIG.owner := %s (must be %s)" % (sorted(map(repr, os_)), want), v.where(s_.block))
+    ctx.floor("C16-owner-init", "owner assignments in instantiate", n, 11)
 
 
 def check_owner_transfer(ctx, model):
